@@ -3,17 +3,17 @@
    on the same schedule, is quiescent and predicts the same observation. *)
 From Relay Require Import Base.Prelude Model.RelaySys.
 
-Inductive kind := KSession | KDeny | KAllow | KWs | KCrossbar.
+Inductive kind := KSession | KDeny | KAllow | KWs | KCrossbar | KLeave.
 
 Definition kind_eqb (a b : kind) : bool :=
   match a, b with
-  | KSession, KSession | KDeny, KDeny | KAllow, KAllow | KWs, KWs | KCrossbar, KCrossbar => true
+  | KSession, KSession | KDeny, KDeny | KAllow, KAllow | KWs, KWs | KCrossbar, KCrossbar | KLeave, KLeave => true
   | _, _ => false
   end.
 
 Record obs := mkobs {
   o_sess : N; o_deny : N; o_allow : N; o_denied : bool; o_allowed : bool;
-  o_codeleft : bool; o_wslive : bool; o_newsess : N }.
+  o_codeleft : bool; o_wslive : bool; o_newsess : N; o_rejoin : bool }.
 
 Definition case := (list kind * list kind * obs)%type.
 
@@ -21,11 +21,13 @@ Definition the_bid : N := 1.
 Definition pre_code : N := 100.
 Definition first_minted : N := 200.
 
-Definition thread_of (k : kind) : thread :=
+(* kj = index of the connection that joined before the race (only when the leave actor takes part) *)
+Definition thread_of (kj : nat) (k : kind) : thread :=
   match k with
   | KSession => TSession the_bid 0 0
   | KDeny => TDeny the_bid 0
   | KAllow => TAllow the_bid 0
+  | KLeave => TLeave kj 0
   | _ => TWs pre_code 0 None
   end.
 
@@ -35,7 +37,12 @@ Fixpoint index_of (k : kind) (l : list kind) (i : nat) : option nat :=
 Definition has_kind (k : kind) (l : list kind) : bool := existsb (kind_eqb k) l.
 
 Definition init_of (ks : list kind) : sys :=
-  init (map thread_of ks) (if has_kind KWs ks then [(pre_code, the_bid)] else []) first_minted.
+  let kj := length ks in
+  let s0 := init (map (thread_of kj) ks ++ (if has_kind KLeave ks then [TWs 101 3 (Some the_bid)] else []))
+                 (if has_kind KWs ks then [(pre_code, the_bid)] else []) first_minted in
+  if has_kind KLeave ks
+  then mksys (deny s0) (allow s0) (codes s0) (nextc s0) [(kj, the_bid)] [] [(kj, the_bid)] [] [] (threads s0)
+  else s0.
 
 (* strict run: every scheduled step must be enabled *)
 Fixpoint run_strict (ks : list kind) (sched : list kind) (s : sys) : option sys :=
@@ -60,13 +67,16 @@ Definition predict (ks : list kind) (s : sys) : obs :=
         denied
         (memN the_bid (allow s))
         (existsb (fun cb => N.leb first_minted (fst cb) && N.eqb (snd cb) the_bid) (codes s) && negb denied)
-        (match index_of KWs ks 0 with Some k => live s k the_bid | None => false end)
-        (if denied then 400 else 200).
+        ((match index_of KWs ks 0 with Some k => live s k the_bid | None => false end)
+         || (has_kind KLeave ks && live s (length ks) the_bid))
+        (if denied then 400 else 200)
+        true.
 
 Definition obs_eqb (a b : obs) : bool :=
   N.eqb (o_sess a) (o_sess b) && N.eqb (o_deny a) (o_deny b) && N.eqb (o_allow a) (o_allow b) &&
   Bool.eqb (o_denied a) (o_denied b) && Bool.eqb (o_allowed a) (o_allowed b) &&
-  Bool.eqb (o_codeleft a) (o_codeleft b) && Bool.eqb (o_wslive a) (o_wslive b) && N.eqb (o_newsess a) (o_newsess b).
+  Bool.eqb (o_codeleft a) (o_codeleft b) && Bool.eqb (o_wslive a) (o_wslive b) && N.eqb (o_newsess a) (o_newsess b) &&
+  Bool.eqb (o_rejoin a) (o_rejoin b).
 
 Definition case_ok (c : case) : bool :=
   let '(ks, sched, o) := c in
